@@ -1,6 +1,8 @@
 //! Slice "xg": the XML the writer generates for a whole writer program restricted to metadata (C04).
 //!
 //! METAW <cmd>...        run the program on the real writer API (in-memory device), finalize, read the file back
+//! METAWDEV <cmd>...     the same program; prints `<results joined by ,> | <hex of the whole device image>` (the writer
+//!                       and its sub-writers are dropped before the image is taken)
 //! FDISPLAY <f64 bits hex>...    Rust's `{}` of each f64, as `=hex` strings
 //! FDISPLAY32 <f32 bits hex>...  the same for f32
 //! IDISPLAY <i64 decimal>...     `{}` of i64 (sanity leg of the integer printing model), as `=hex`
@@ -483,7 +485,7 @@ fn run_img(iw: &mut Option<ImageWriter<Dev>>, toks: &[&str], i: &mut usize, outs
 /// Returns (results, finalized)
 /// Appends the result tokens to `outs`; returns true when E57Writer::finalize succeeded.
 /// A panic of the library unwinds out of this function (caught by the caller).
-fn run_program(dev: &Dev, toks: &[&str], outs: &mut Vec<String>) -> bool {
+pub fn run_program(dev: &Dev, toks: &[&str], outs: &mut Vec<String>) -> bool {
     assert!(toks.len() >= 2 && toks[0] == "G", "program must start with G");
     let guid = unstr(toks[1]);
     let (t, w) = res_tok(E57Writer::new(dev.clone(), &guid));
@@ -757,9 +759,20 @@ fn run_metaw(toks: &[&str]) -> String {
     format!("{} | {} | {} | {}", res, xml_s, back, tree)
 }
 
+/// METAWDEV: the program as for METAW; prints the results and the whole device image
+fn run_metawdev(toks: &[&str]) -> String {
+    let dev = Dev::new(Vec::new(), None);
+    let mut outs = Vec::new();
+    if guard(|| run_program(&dev, toks, &mut outs)).is_none() {
+        outs.push("P".to_string());
+    }
+    format!("{} | {}", outs.join(","), hex(&dev.snapshot()))
+}
+
 pub fn run(kind: &str, toks: &[&str]) -> Option<String> {
     match kind {
         "METAW" => Some(run_metaw(toks)),
+        "METAWDEV" => Some(run_metawdev(toks)),
         "FDISPLAY" => Some(toks.iter().map(|t| hs(&format!("{}", f64b(t)))).collect::<Vec<_>>().join(" ")),
         "FDISPLAY32" => Some(toks.iter().map(|t| hs(&format!("{}", f32b(t)))).collect::<Vec<_>>().join(" ")),
         "IDISPLAY" => Some(
